@@ -24,7 +24,8 @@ use std::collections::{BTreeMap, BTreeSet};
 #[derive(Clone, Debug, PartialEq)]
 pub enum DEnt {
     Def(Ino),
-    Maybe(Ino),
+    /// present or absent; the flag is the generator's guess (never used by the oracle)
+    Maybe(Ino, bool),
     Undet,
 }
 
@@ -49,8 +50,8 @@ pub struct Durable {
     pub files: BTreeMap<Ino, FileDur>,
     pub dir_inodes: BTreeSet<Ino>,
     /// cross-directory renames not yet durable on the source side:
-    /// (inode, source dir, source name, destination dir)
-    pub moves: Vec<(Ino, Ino, String, Ino)>,
+    /// (inode, source dir, source name, destination dir, destination name)
+    pub moves: Vec<(Ino, Ino, String, Ino, String)>,
     /// sync_probability > 0
     pub bg_sync: bool,
     pub block: Option<u64>,
@@ -145,7 +146,8 @@ impl Durable {
                     from_dir,
                     from_name,
                     to_dir,
-                } => self.moves.push((ino, from_dir, from_name, to_dir)),
+                    to_name,
+                } => self.moves.push((ino, from_dir, from_name, to_dir, to_name)),
                 Ev::SyncDir(d) => self.sync_dir(d),
             }
         }
@@ -154,24 +156,42 @@ impl Durable {
     fn sync_dir(&mut self, d: Ino) {
         let new: BTreeMap<String, Ino> = self.v.dir(d).clone();
         let old = self.dents.get(&d).cloned().unwrap_or_default();
-        // cross-directory renames of which only the destination directory is
-        // synced: the source name may or may not survive (whether or not the
-        // object is still in the destination directory)
+        // A cross-directory rename of which only ONE of the two directories
+        // has been synced: the property text does not say whether the other
+        // name follows (a rename is one atomic operation, yet each entry is
+        // "made durable by syncing its parent directory"). Each name may show
+        // the state before or after the rename until its own directory is
+        // synced too.
         let moves = std::mem::take(&mut self.moves);
-        for (ino, from_dir, from_name, to_dir) in moves {
-            if from_dir == d {
-                // source side synced: the snapshot below settles it
-                continue;
-            }
-            if to_dir == d {
+        for (ino, from_dir, from_name, to_dir, to_name) in moves {
+            if to_dir == d && from_dir != d {
+                // destination synced (snapshot below); source name undecided
                 if let Some(ents) = self.dents.get_mut(&from_dir) {
-                    if ents.get(&from_name) == Some(&DEnt::Def(ino)) {
-                        ents.insert(from_name.clone(), DEnt::Maybe(ino));
+                    if matches!(ents.get(&from_name), Some(DEnt::Def(j)) if *j == ino) {
+                        ents.insert(from_name.clone(), DEnt::Maybe(ino, false));
                     }
                 }
                 continue;
             }
-            self.moves.push((ino, from_dir, from_name, to_dir));
+            if from_dir == d && to_dir != d {
+                // source synced (snapshot below); destination name undecided
+                let ents = self.dents.entry(to_dir).or_default();
+                match ents.get(&to_name) {
+                    None => {
+                        ents.insert(to_name.clone(), DEnt::Maybe(ino, true));
+                    }
+                    Some(DEnt::Def(j)) | Some(DEnt::Maybe(j, _)) if *j == ino => {}
+                    Some(_) => {
+                        // old object or the renamed one
+                        ents.insert(to_name.clone(), DEnt::Undet);
+                    }
+                }
+                continue;
+            }
+            if from_dir == d && to_dir == d {
+                continue;
+            }
+            self.moves.push((ino, from_dir, from_name, to_dir, to_name));
         }
         let _ = &old;
         self.dents
@@ -182,12 +202,12 @@ impl Durable {
             if let Some((p, name)) = self.v.parent_of(d) {
                 let ents = self.dents.entry(p).or_default();
                 match ents.get(&name) {
-                    Some(DEnt::Def(j)) | Some(DEnt::Maybe(j)) if *j == d => {}
+                    Some(DEnt::Def(j)) | Some(DEnt::Maybe(j, _)) if *j == d => {}
                     Some(_) => {
                         ents.insert(name, DEnt::Undet);
                     }
                     None => {
-                        ents.insert(name, DEnt::Maybe(d));
+                        ents.insert(name, DEnt::Maybe(d, true));
                     }
                 }
             }
@@ -404,7 +424,7 @@ impl Durable {
                     st.stop = true;
                     continue;
                 }
-                DEnt::Maybe(i) => {
+                DEnt::Maybe(i, _) => {
                     st.maybe_entries += 1;
                     if !names.contains(n) {
                         continue;
@@ -529,7 +549,7 @@ impl Durable {
             let mut cur = ROOT;
             for c in crate::ops::comps(path) {
                 match d.dents.get(&cur).and_then(|m| m.get(c)) {
-                    Some(DEnt::Def(i)) => cur = *i,
+                    Some(DEnt::Def(i)) | Some(DEnt::Maybe(i, true)) => cur = *i,
                     _ => return Obs::Absent,
                 }
             }
@@ -539,7 +559,9 @@ impl Durable {
                         .get(&cur)
                         .map(|m| {
                             m.iter()
-                                .filter(|(_, e)| matches!(e, DEnt::Def(_)))
+                                .filter(|(_, e)| {
+                                    matches!(e, DEnt::Def(_) | DEnt::Maybe(_, true))
+                                })
                                 .map(|(n, _)| n.clone())
                                 .collect()
                         })
